@@ -446,7 +446,7 @@ func runC11(ch *Choices, cfg *RunCfg) (o *Outcome) {
 	st.in = c11New(pair, tm, nm)
 	st.tmDigest = mapsDigest(tm, nm)
 
-	mode := ch.Pick([]int{70, 15, 15}, "mode")
+	mode := ch.Pick([]int{60, 13, 13, 14}, "mode")
 	switch mode {
 	case 0:
 		// seeded history, then probe
@@ -493,6 +493,68 @@ func runC11(ch *Choices, cfg *RunCfg) (o *Outcome) {
 		}
 		o.Probes["write-side abort index enumerated exhaustively"]++
 		o.Sample = map[string]interface{}{"mode": "enumerated write aborts", "value": describe(v), "writes": ctl.Calls}
+	case 3:
+		// soak: ONE failing call repeated many times (state that leaks a little per failure only shows
+		// after many), then probes incl. a deeply nested value
+		R := ch.Range(20, 400, "soak.n")
+		kind := ch.Intn(4, "soak.kind")
+		var data []byte
+		var val interface{}
+		var what string
+		switch kind {
+		case 0:
+			data = deepBadStream(ch.Range(1, 120, "soak.depth"))
+			what = "decode of nested lists ending in an undefined class index"
+		case 1:
+			data = c11ValidBytes(st.g.Value())
+			data, _, _ = ApplyPlan(data, c14DrawPlan(ch, len(data), nil))
+			what = "decode of a damaged stream"
+		case 2:
+			val = st.g.Value()
+			what = "WriteTo aborted by a writer fault"
+		default:
+			val = map[string]interface{}{"a": int32(1), "k": &K19{A: 1, P: &K18{A: 2, S: "x"}}, "z": make(chan int)}
+			what = "encode of a value whose nested element is unrepresentable"
+		}
+		k := 1 + ch.Intn(30, "soak.k")
+		for i := 0; i < R; i++ {
+			switch kind {
+			case 0, 1:
+				guarded(func() { st.in.decode(data) })
+			case 2:
+				guarded(func() { st.in.writeTo(&FaultyWriter{FaultAt: k, Kind: WErrOnce}, val) })
+			default:
+				guarded(func() { st.in.encode(val) })
+			}
+		}
+		st.opLog = append(st.opLog, fmt.Sprintf("%d x %s", R, what))
+		o.Faults["soak: failing call repeated"] += R
+		// probe 1: a deep chain, encoded and decoded on the used and on a fresh instance
+		n := ch.Range(50, 300, "soak.chain")
+		var head *Node
+		for i := n; i >= 1; i-- {
+			head = &Node{Id: int32(i), Name: "c", Next: head}
+		}
+		ftm, fnm := copyMaps()
+		fresh := c11New(pair, ftm, fnm)
+		ue := c11Probe(st.in, pEncode, head, nil)
+		fe := c11Probe(fresh, pEncode, head, nil)
+		o.Evals++
+		if !bytes.Equal(ue.bytes, fe.bytes) || ue.err != fe.err || ue.pan != fe.pan {
+			o.fail("c11/probe-differs", "Encode/ToBytes", "after %v, Encode of a %d-node chain returned {%s} on the used instance but {%s} on a fresh one", st.opLog, n, ue.String(), fe.String())
+		} else if fe.err == "<nil>" {
+			ud := c11Probe(st.in, pDecode, nil, fe.bytes)
+			fd := c11Probe(fresh, pDecode, nil, fe.bytes)
+			o.Evals++
+			if ud.canon != fd.canon || ud.err != fd.err || ud.pan != fd.pan {
+				o.fail("c11/probe-differs", "Decode/ToObject", "after %v, Decode of a %d-node chain returned {%s} on the used instance but {%s} on a fresh one", st.opLog, n, ud.String(), fd.String())
+			}
+		}
+		if o.Class == "" {
+			st.probe("soak")
+		}
+		o.Probes["soak mode: one failing call repeated 20..400 times, then deep and ordinary probes"]++
+		o.Sample = map[string]interface{}{"mode": "soak", "repeated": what, "times": R, "chain_nodes": n}
 	default:
 		// enumerated read-side aborts: every cut offset, then a decode probe
 		b := c11ValidBytes(st.g.Value())
